@@ -34,7 +34,7 @@ func isLenReadIns(i ssa.Instruction) bool {
 
 func c07(r *Run) {
 	w := r.W
-	ro := rolesOf(w)
+	ro := r.roles()
 	px := protoEffects(w)
 	_ = px
 	waitRead := w.MustFn("(*connection).waitRead")
@@ -524,7 +524,7 @@ func nilGuards(r *Run) {
 // errMappingRules: once the wait loops see the connection closed, the error returned says who closed it.
 func errMappingRules(r *Run, prefix string) {
 	w := r.W
-	ro := rolesOf(w)
+	ro := r.roles()
 	statusCall := isCallOf(ro.status, ro.kClosing)
 	byPoller := cmpAtom(statusCall, isConstEq(ro.whoPoller), eqRel)
 	byUser := cmpAtom(statusCall, isConstEq(ro.whoUser), eqRel)
@@ -584,7 +584,7 @@ func expiredRule(r *Run, fn *ssa.Function, errName, prefix string) {
 // any user callback (OnDisconnect) can run.
 func closeWakeRules(r *Run, prefix string) {
 	w := r.W
-	ro := rolesOf(w)
+	ro := r.roles()
 	px := protoEffects(w)
 	// ---- R3 close wakes ----------------------------------------------------------------------------
 	for _, c := range []struct {
